@@ -336,6 +336,59 @@ def drag_history():
     if rng.random() < 0.5:
         emit("mouse 1 1 %d %d 0" % (pl, pc)); emit("mouse 2 1 0 0 0")
 
+def chain_history():
+    """A chain of nested windows three to five deep over one cell (dialog > form > field …), with handlers on every
+    level; the focus is placed on a deep window (keys travel down the focus chain and come back up through every
+    ancestor's own handlers) and the mouse events hit the shared cell (or the deep windows steal input); a deep
+    handler hides, closes, or shows again an ancestor two or more levels up — or any other window of the chain — and
+    declines; later events and top-level show / hide repeat the exercise on the changed tree."""
+    L, C = rng.randint(6, 10), rng.randint(10, 18)
+    emit("new %d %d" % (L, C))
+    count(feat, "template:chain")
+    depth = rng.choice([3, 3, 4, 4, 5])
+    chain = [0]
+    for d in range(depth):
+        f = 8 if rng.random() < 0.12 else 0
+        emit("win %d 0 0 %d %d %d" % (chain[-1], max(1, L - 1 - d), max(1, C - 2 - d), f))
+        chain.append(len(chain))
+    ids = list(chain)
+    # a sibling next to some level, so that "the rest" exists
+    if rng.random() < 0.6:
+        lvl = rng.randint(0, depth - 1)
+        emit("win %d 0 0 2 2 %d" % (chain[lvl], 2 if rng.random() < 0.7 else 0))
+        ids.append(len(ids))
+    deep = rng.choice(chain[-2:])
+    kind_of_actor = rng.choice("kkm")
+    di = chain.index(deep)
+    for w in ids:
+        for kind in "km":
+            if w == deep and kind == kind_of_actor:
+                # an ancestor at least two levels up (when there is one), else anything on the chain
+                far = chain[:max(1, di - 1)]
+                tgt = rng.choice(far) if rng.random() < 0.75 else rng.choice(chain)
+                a = rng.choice("hhhhccs"); count(actmix, a)
+                e0 = "0,%s%d" % (a, tgt)
+                if rng.random() < 0.3:
+                    a2 = rng.choice("hcu"); count(actmix, a2)
+                    e0 += ",%s%d" % (a2, rng.choice(chain[1:]))
+                # later invocations: show it again, or do nothing
+                a3 = rng.choice("ssh"); count(actmix, a3)
+                e1 = "0,%s%d" % (a3, tgt) if rng.random() < 0.5 else "0"
+                emit("bind %d %s %s %s 0" % (w, kind, e0, e1))
+            elif rng.random() < 0.9:
+                emit("bind %d %s %d" % (w, kind, 1 if rng.random() < 0.07 else 0))
+    if rng.random() < 0.85: emit("act f%d" % deep); count(feat, "focus-setup")
+    if rng.random() < 0.3: emit("act t%d" % rng.choice(chain[1:]))
+    if rng.random() < 0.3: emit("act h%d" % rng.choice(chain[1:-1]))      # start with a hidden level sometimes
+    for _ in range(rng.randint(3, 6)):
+        x = rng.random()
+        if x < 0.45: emit("key %d 0" % rng.choice([1, 2]))
+        elif x < 0.80: emit("mouse %d 1 0 0 0" % rng.choice([1, 4, 1, 2, 3]))
+        elif x < 0.92:
+            a = rng.choice("sshf"); count(actmix, "top:" + a)
+            emit("act %s%d" % (a, rng.choice(chain[1:])))
+        else: emit("flush")
+
 # ----------------------------------------------------------------------------------------------- exhaustive
 def exhaustive():
     nh = 0
@@ -401,9 +454,10 @@ else:
     H = 1500 if a.tier == "quick" else 10000
     for _ in range(H):
         x = rng.random()
-        if x < 0.70: random_history()
-        elif x < 0.87: stack_history()
-        else: drag_history()
+        if x < 0.62: random_history()
+        elif x < 0.77: stack_history()
+        elif x < 0.88: drag_history()
+        else: chain_history()
     info = {"histories": H}
 open(a.out, "w").write("\n".join(lines) + "\n")
 info.update({"ops": len(lines), "mix": mix, "handler_actions": actmix, "features": feat})
